@@ -44,7 +44,7 @@ def targets(tier):
     k = 1 if tier == "quick" else 10
     t = {"twin_steps_compared": 20000 * k}
     for name in DETS:
-        t["twin_epochs:" + name] = 40 * k
+        t["twin_epochs:" + name] = 25 * k
     for name in ("KdqTreeBatch", "HDDDM", "CDBD", "NNDVI"):
         t["explicit_set_reference:" + name] = 20 * k
     return t
